@@ -399,7 +399,14 @@ def c04_all_type_spellings(kind: int, r: int, a: int, role: int) -> bool:
     with concrete():
         ty = A.a_leaf(a) if kind == 0 else A.a_root(r, [A.a_leaf(a), A.a_leaf((a * 7 + r) % A.NA_LEAF)][:1 + (a + r) % 2])
         if A.a_allowed(ty, "argument") and not (subst_needed(ty) and role == 2):          # `This` means nothing in a free function
-            decl = ["class Cls { Cls(); void doIt(%s a, int z) const; };", "class Cls { Cls(); static void doIt(%s a, int z); };", "void doIt(%s a, int z);"][role] % itext(ty)
+            # a look-alike second parameter: same outer type, the (first) inner qualifier changed
+            def twin(t):
+                const, nss, name, args, suf = t
+                if args:
+                    return (const, nss, name, (twin(args[0]),) + tuple(args[1:]), suf)
+                return (not const, nss, name, args, {"": "*", "*": "", "&": "", "@": "*"}[suf])
+            ty2 = twin(ty)
+            decl = ["class Cls { Cls(); void doIt(%s a, %s b, int z) const; };", "class Cls { Cls(); static void doIt(%s a, %s b, int z); };", "void doIt(%s a, %s b, int z);"][role] % (itext(ty), itext(ty2))
             text = PRELUDE + "namespace top { " + decl + " }"
             try:
                 body = pipe.pybind_body(text)
@@ -412,18 +419,32 @@ def c04_all_type_spellings(kind: int, r: int, a: int, role: int) -> bool:
                 return (const, nss, name, tuple(subst_this(x) for x in args), suf)
             want = ref_cpp(subst_this(ty))
             lam = re.search(r"\[\]\((.*?)\)\{", body)
-            params = readers.split_top(lam.group(1)) if lam else []
+            def split_params(txt):            # top-level commas only: template argument lists nest with < >
+                out, depth, cur = [], 0, ""
+                for ch in txt:
+                    depth += ch in "<([{"
+                    depth -= ch in ">)]}"
+                    if ch == "," and depth == 0:
+                        out.append(cur.strip()); cur = ""
+                    else:
+                        cur += ch
+                return out + ([cur.strip()] if cur.strip() else [])
+            params = split_params(lam.group(1)) if lam else []
             off = 1 if role == 0 else 0
             got = params[off].rsplit(" ", 1)[0].strip() if len(params) > off else None
+            got2 = params[off + 1].rsplit(" ", 1)[0].strip() if len(params) > off + 1 else None
             if got != want:
                 ok = _fail(text=text, parameter=got, declared=want, body=body[-400:])
-            elif 'py::arg("a"), py::arg("z")' not in body:
+            elif got2 != ref_cpp(subst_this(ty2)):
+                ok = _fail(text=text, second_parameter=got2, declared=ref_cpp(subst_this(ty2)), body=body[-400:])
+            elif 'py::arg("a"), py::arg("b"), py::arg("z")' not in body:
                 ok = _fail(text=text, problem="keyword arguments", body=body[-300:])
     reached({"kind": kind, "a": a, "r": r, "role": role} if not ok else None)
     return ok
 
 
-VERBATIM_DEFAULTS = ['"This: "', '"T"', "'T'", '"a This b, T"', 'Outer::This', 'ns::T', 'std::vector<string>{"T", "This"}', 'opts.T', 'Tolerance(T_MAX)', '"U and T and This"']
+VERBATIM_DEFAULTS = ['"This: "', '"T"', "'T'", '"a This b, T"', 'Outer::This', 'ns::T', 'std::vector<string>{"T", "This"}', 'opts.T', 'Tolerance(T_MAX)', '"U and T and This"',
+                     'TOL', 'MAX_U', 'kU', 'Traits::one()', 'xUx + T_U', "'U'", 'sizeof(UT)', 'Thiss::make(Uu)']
 
 
 def c04_default_verbatim(d: int, flavour: int, role: int) -> bool:
@@ -431,18 +452,18 @@ def c04_default_verbatim(d: int, flavour: int, role: int) -> bool:
     Default-value text that merely MENTIONS a template parameter's spelling or `This` — inside string / character
     literals, as a member or namespace-qualified name, inside a longer identifier — reaches `py::arg(..) = ...` exactly
     as written, in plain and templated classes, member templates and function templates.
-    pre: 0 <= d < len(VERBATIM_DEFAULTS) and 0 <= flavour <= 2 and 0 <= role <= 3
+    pre: 0 <= d < len(VERBATIM_DEFAULTS) and 0 <= flavour <= 3 and 0 <= role <= 3
     post: _
     """
-    d, flavour, role = pick(d, 0, len(VERBATIM_DEFAULTS)), pick(flavour, 0, 3), pick(role, 0, 4)
+    d, flavour, role = pick(d, 0, len(VERBATIM_DEFAULTS)), pick(flavour, 0, 4), pick(role, 0, 4)
     with concrete():
         dv = VERBATIM_DEFAULTS[d]
-        cls_t = "template<T = {double}> " if flavour == 1 else ""
-        mem_t = "template<U = {int}> " if flavour == 2 else ""
-        first = "const T& x" if flavour == 1 else ("const U& x" if flavour == 2 else "double x")
+        cls_t = "template<T = {double}> " if flavour in (1, 3) else ""
+        mem_t = "template<U = {int}> " if flavour in (2, 3) else ""          # 3: class parameter T and member parameter U both in scope
+        first = "const T& x" if flavour == 1 else ("const U& x" if flavour in (2, 3) else "double x")
         sig = "%s, const string& label = %s, int n = 3" % (first, dv)
         if role == 3:
-            decl = "%svoid doIt(%s);" % ("template<T = {double}> " if flavour == 1 else mem_t, sig)
+            decl = "%svoid doIt(%s);" % ("template<T = {double}> " if flavour == 1 else ("template<T = {double}, U = {int}> " if flavour == 3 else mem_t), sig)
             text = PRELUDE + "namespace top { " + decl + " }"
         else:
             member = ["%sCls(%s);", "%svoid doIt(%s) const;", "%sstatic void doIt(%s);"][role] % (mem_t, sig)
@@ -504,7 +525,7 @@ def conds(tier):
         xh.Cond(M, "c04_all_type_spellings", t(420, 2400), path_timeout=60, kind=sb, examples=["kind=0, r=0, a=43, role=0", "kind=1, r=11, a=27, role=1", "kind=1, r=47, a=127, role=2", "kind=0, r=0, a=90, role=2"],
                 bounds="every leaf of the C01 type algebra (128) and %s templated roots over it as first parameter of a method / static / function (%s)" % ("every fourth (root, leaf) pair of the 48 x 128" if not q else "every sixteenth (root, leaf) pair of the 48 x 128", "3 roles" if not q else "role derived")),
         xh.Cond(M, "c04_default_verbatim", t(200, 600), kind=sb, examples=["d=0, flavour=0, role=1", "d=1, flavour=1, role=0", "d=2, flavour=2, role=3", "d=9, flavour=2, role=2"],
-                bounds="%d default texts mentioning T / U / This x {plain, class template, member or function template} x 4 roles" % len(VERBATIM_DEFAULTS)),
+                bounds="%d default texts mentioning T / U / This x {plain, class template, member or function template, two parameters in scope} x 4 roles" % len(VERBATIM_DEFAULTS)),
         xh.Cond(M, "c04_kf_parent_qualifiers", 60, path_timeout=60, kind=sb, bounds="witness of a listed known finding", needs_confirm=False),
         xh.Cond(M, "c04_argname", t(120, 600), examples=["name='pose'"], bounds="all argument names of length <= 6"),
     ]
